@@ -94,16 +94,20 @@ def c01_corpus(tier, seed):
         entries += entries_for(g)
     # small-scope enumeration (seed independent) through the host TUs
     if tier == 'quick':
-        small = gengram.small_grammars(stride=17, limit=160, max_rules=3, max_rhs=2)
-        small += gengram.small_grammars(stride=499, limit=160, nts=('S', 'A', 'B'), ts=('a', 'b'), max_rules=4, max_rhs=2)
+        fams = [gengram.small_grammars(stride=17, limit=160, max_rules=3, max_rhs=2),
+                gengram.small_grammars(stride=499, limit=160, nts=('S', 'A', 'B'), ts=('a', 'b'), max_rules=4, max_rhs=2)]
         nrand = 120
     else:
-        small = gengram.small_grammars(stride=5, limit=2500, max_rules=3, max_rhs=2)
-        small += [g for g in gengram.small_grammars(stride=211, limit=1500, max_rules=4, max_rhs=2)]
-        small += gengram.small_grammars(stride=397, limit=3000, nts=('S', 'A', 'B'), ts=('a', 'b'), max_rules=4, max_rhs=2)
+        fams = [gengram.small_grammars(stride=5, limit=2500, max_rules=3, max_rhs=2),
+                gengram.small_grammars(stride=211, limit=1500, max_rules=4, max_rhs=2),
+                gengram.small_grammars(stride=397, limit=3000, nts=('S', 'A', 'B'), ts=('a', 'b'), max_rules=4, max_rhs=2)]
         nrand = 600
+    small = []
+    for fi, fam in enumerate(fams):
+        for g in fam:
+            g.name = 's%d%s' % (fi, g.name)      # one name space per enumeration family (names are keys of verdicts and traces)
+            small.append(g)
     for g in small:
-        g.name = 's' + g.name
         try:
             entries.append(pipeline.host_entry(g, 2))
         except ValueError:
@@ -1343,7 +1347,7 @@ def check_C06(tier, seed):
         out.violations.append({'summary': pb, 'kind': 'containers'})
     st_cs += crun.distinct; tr_cs += crun.generated
     # ---- termination of the specification itself (liveness under weak fairness, no state constraint)
-    small = [e for e in entries if e.mode in ('host0', 'host1')][:6]
+    small = [e for e in entries if e.mode == 'host0'][:4] + [e for e in entries if e.mode == 'host1'][:3]      # incl. error-recovery grammars (recovery / consume loops)
     env, _ = pipeline.tlc_inputs(small, work, 'live', with_traces=False)
     env.pop('VERIF_DUMPS', None)
     cfg = pipeline.write_cfg(work, 'live', 'FairSpec', ['Safe'], {'L': 3, 'WSBYTES': '{32, 63}'}, properties=['Terminates'])
